@@ -365,6 +365,16 @@ def _export_roundtrip(b, pt, sc, d):
             got = Counter((_q(p, n.start.t), _q(p, n.end.t) - _q(p, n.start.t), n.midi_pitch, n.staff) for p in s2.parts for n in p.iter_all(sc.Note, include_subclasses=True))
             b.case("export/reload_keeps_onset_duration_pitch_staff", got == want, case,
                    "re-loaded only %r, exported only %r" % (_fmt(sorted((got - want).elements())[:3]), _fmt(sorted((want - got).elements())[:3])))
+            # ... and, for kern, the SOUNDING notes (a tie chain is one note, however many note heads it is written with).  The MEI writer
+            # records ties as @tie attributes, which the MEI reader does not read (it reads <tie> elements): there the note heads come back
+            # untied, which the clause above (note heads) accepts and DESIGN.md records as examined and left alone
+            if ext != "krn":
+                continue
+            from gen import oracles as O
+            snd = lambda p_: Counter((_q(p_, on), _q(p_, on + du) - _q(p_, on), pit) for (on, du, pit, _) in O.sounding_notes(p_))
+            want_s, got_s = snd(part), sum((snd(p_) for p_ in s2.parts), Counter())
+            b.case("export/reload_keeps_onset_duration_pitch_staff", got_s == want_s, dict(case, notes="sounding (tie chains joined)"),
+                   "sounding notes re-loaded only %r, exported only %r" % (_fmt(sorted((got_s - want_s).elements())[:3]), _fmt(sorted((want_s - got_s).elements())[:3])))
 
 
 def _dispatch(b, pt, d):
